@@ -81,3 +81,35 @@ Proof. exact clean_then_build_restores_without_distinct_refuted. Qed.
 
 Check C10_clean_removes_every_target.
 Check C10_clean_then_build_restores.
+
+(* ---- clean under every interleaving of its rule threads (round 4; Model/CleanFine.v, Proofs/CleanFine*.v) ----
+   The first sentence of C10 for EVERY complete interleaving of the clean's threads: the clean succeeds, no target of the
+   plan exists afterwards, and the content of each one that existed is in the cache under its hash — under the fine clock
+   and under any clock. *)
+From Coq Require Import Relations.
+From Ruler Require Import Bytes AList RuleSyntax TopoSort World Work Build Ops Inv InvFacts BuildSpec C01Facts C02Sym CoarseInv C18CoarseFacts Sched Fine FineCor CleanFine CleanFineBasic CleanFineInv CleanFineFacts.
+Local Open Scope nat_scope.
+
+Theorem C10_clean_under_every_interleaving : forall (w : world sym) rp goal w1 tbl pack ch,
+  disk_inv sym_eqb SContent w -> init_dir sym w = Ok (w1, tbl) -> get_nodes sym w1 rp goal = Ok pack ->
+  clean_complete_sym ch w rp goal ->
+  let o := clean_fine_sym ch w rp goal in
+  o_verdict o = VOk /\
+  (forall p, In p (plan_targets pack) -> fget (o_world o) p = None) /\
+  (forall p f, In p (plan_targets pack) -> fget w p = Some f ->
+     exists c g, cache_of (o_world o) = Some c /\ alookup sym_eqb c (SContent (f_content f)) = Some g /\
+                 f_content g = f_content f).
+Proof. exact clean_fine_complete_run_cleans_sym. Qed.
+Print Assumptions C10_clean_under_every_interleaving.
+
+Theorem C10_clean_under_every_interleaving_any_clock : forall (w : world sym) rp goal w1 tbl pack ch,
+  coarse_inv sym_eqb SContent w -> init_dir sym w = Ok (w1, tbl) -> get_nodes sym w1 rp goal = Ok pack ->
+  clean_complete_sym ch w rp goal ->
+  let o := clean_fine_sym ch w rp goal in
+  o_verdict o = VOk /\
+  (forall p, In p (plan_targets pack) -> fget (o_world o) p = None) /\
+  (forall p f, In p (plan_targets pack) -> fget w p = Some f ->
+     exists c g, cache_of (o_world o) = Some c /\ alookup sym_eqb c (SContent (f_content f)) = Some g /\
+                 f_content g = f_content f).
+Proof. exact clean_fine_complete_run_cleans_coarse_sym. Qed.
+Print Assumptions C10_clean_under_every_interleaving_any_clock.
